@@ -3,8 +3,10 @@ package c09
 import (
 	"bufio"
 	"bytes"
+	"encoding/binary"
 	"fmt"
 	"math/big"
+	mrand "math/rand/v2"
 	"sort"
 	"strings"
 	"time"
@@ -262,6 +264,33 @@ func ghostThreshold(rfRaw *big.Int, n int, bonded int) *uint64 {
 	return &t
 }
 
+// pureAssign is the protocol's shard assignment, re-implemented here without any state: the
+// first `threshold` elements of the Fisher-Yates shuffle of 0..n-1 driven by PCG(seed, 1024),
+// seed = first 8 bytes (big endian) of MiMC(validator address, left-padded to whole blocks when
+// longer than one). Every call shuffles a fresh array, so nothing the application caches,
+// sorts or hands out can leak into the ghost assignment.
+func pureAssign(op sdk.ValAddress, threshold, n int64) []int64 {
+	m := native_mimc.NewMiMC()
+	bz := append([]byte{}, op...)
+	if rem := len(bz) % m.BlockSize(); len(bz) > m.BlockSize() && rem != 0 {
+		padded := make([]byte, len(bz)+m.BlockSize()-rem)
+		copy(padded[m.BlockSize()-rem:], bz)
+		bz = padded
+	}
+	m.Write(bz)
+	seed := binary.BigEndian.Uint64(m.Sum(nil)[:8])
+	if threshold > n {
+		threshold = n
+	}
+	arr := make([]int64, n)
+	for i := range arr {
+		arr[i] = int64(i)
+	}
+	rnd := mrand.New(mrand.NewPCG(seed, 1024))
+	rnd.Shuffle(int(n), func(i, j int) { arr[i], arr[j] = arr[j], arr[i] })
+	return append([]int64{}, arr[:threshold]...)
+}
+
 // ghostThr computes the ghost threshold for n shards on ctx.
 func (w *world) ghostThr(ctx sdk.Context, n int) *uint64 {
 	params, err := w.h.App.DaKeeper.Params.Get(ctx)
@@ -300,7 +329,7 @@ func (w *world) queryCase(ctx sdk.Context, n int) (string, map[string]any) {
 		}()
 		var want []int64
 		if g != nil {
-			want = datypes.ShardIndicesForValidator(op, int64(*g), int64(n))
+			want = pureAssign(op, int64(*g), int64(n))
 		}
 		pairs = append(pairs, emit.Tuple(zs(got), zs(want)))
 		shown = append(shown, fmt.Sprintf("v%d: query %v, protocol %v", w.idOf(op), got, want))
@@ -361,7 +390,7 @@ func (w *world) readPre(ctx sdk.Context) blockPre {
 		it.GThr = ghostThreshold(p.RF, n, len(ops))
 		if it.GThr != nil {
 			for _, op := range ops {
-				it.Asg = append(it.Asg, datypes.ShardIndicesForValidator(op, int64(*it.GThr), int64(n)))
+				it.Asg = append(it.Asg, pureAssign(op, int64(*it.GThr), int64(n)))
 			}
 		} else {
 			for range ops {
